@@ -1,4 +1,5 @@
 import BR.Lemmas.LruOrder
+import BR.Bridge.Lru
 /-!
 # C03 — accounted size never exceeds max_size and equals entries plus reservations
 
